@@ -163,6 +163,28 @@ def run(ctx: Ctx):
                     why = False
                     detail = (f"the slot table is indexed with {it} without a range test on every path (lower {lo is not None}, upper {hi is not None}): "
                               "a bound outside the project window raises IndexError inside the scheduler")
+            # (c) the index is a parameter and every call site establishes the range before the call
+            if not why and it in fn.params:
+                pos = fn.params.index(it) - (1 if fn.cls is not None else 0)
+                sites_ok, n_sites = True, 0
+                for (caller, call) in ctx.cg.callers(fn):
+                    if caller not in reach:
+                        continue
+                    n_sites += 1
+                    arg = call.args[pos] if 0 <= pos < len(call.args) else next((k.value for k in call.keywords if k.arg == it), None)
+                    if arg is None:
+                        sites_ok = False
+                        break
+                    at = norm(arg).replace(" ", "")
+                    cf, cgph = facts_of(caller), cfg_of(caller)
+                    cn = cgph.node_containing(call)
+                    lo_c = cf.holds(cn, lambda t, p: (not p) and t.replace(" ", "") == f"{at}<0") if cn else None
+                    hi_c = cf.holds(cn, lambda t, p: (not p) and t.replace(" ", "").startswith(f"{at}>=") and ("size" in t or "len(" in t)) if cn else None
+                    if lo_c is None or hi_c is None:
+                        sites_ok = False
+                        break
+                if n_sites and sites_ok:
+                    why = f"{it} is a parameter and each of the {n_sites} reachable call site(s) establishes 0 <= {it} < size before the call"
             ctx.ob("R11.2", f"{fn.qual}: {norm(sx)[:50]} at line {getattr(sx, 'lineno', '?')}", (fn, sx), bool(why),
                    why if why else detail, key=key_of("R11.2", fn, None, f"range {norm(sx)}"))
     if n_sub < 10:
